@@ -6,6 +6,11 @@ Spec: spec/IdlGrammar.
                     samples it); lib/idlgen.py renders them to IDL text with identifiers from a pool.
   IdlSignatures.tla the family of operation signatures by parameter-direction sequence (every in/out sequence up to a
                     bound, with and without return value), enumerated exhaustively by TLC; one program per batch;
+  IdlIncludes.tla   the family of include graphs (acyclic, up to 4 files, the order of the include lines part of the graph, the
+                    root file written as one module or as two), enumerated exhaustively by TLC, each with the program in which
+                    every file uses types of every file it includes (members, defaults, containers, arrays, parameters, results);
+  IdlSwitches.tla   the family of assignments of the tool's switches that change what it emits (+ the include search path),
+                    enumerated by TLC; every program of a batch is generated under its own assignment;
   Oracle_Call       batch oracle for the calls made through the generated proxies and dispatchers (call transparency);
   IdlGrammar.tla    the IDL as a token-level pushdown automaton (reference for "in the language");
   Gen_IdlGrammar    TLC enumerates its configurations / viable prefixes and every transition out of them;
@@ -28,6 +33,7 @@ Binding:
 import copy
 import glob
 import hashlib
+import itertools
 import json
 import os
 import random
@@ -118,6 +124,50 @@ def go_build(h, pattern, timeout=900):
         if not bad:
             raise Inconclusive("go build %s failed without a source position:\n%s" % (pattern, (so + se)[-3000:]))
     return rc == 0, bad
+
+
+LOAD_ERR = re.compile(r"is not in std|cannot find package|no required module provides|cannot find module|import cycle not allowed|case-insensitive import collision")
+
+
+def go_build_all(h, root):
+    """go build ./<root>/...: a package that cannot be LOADED (an import that resolves to nothing) keeps the compiler from
+    running on any package of the pattern, so the trees <root>/<x> with such errors are set aside and the rest is built again."""
+    bad = {}
+    for _ in range(6):
+        ok, b = go_build(h, "./%s/..." % root)
+        for pkg, e in b.items():
+            bad.setdefault(pkg, e)
+        load = sorted({os.sep.join(pkg.split(os.sep)[:2]) for pkg, e in b.items() if LOAD_ERR.search(e)})
+        if ok or not load:
+            break
+        for t in load:
+            shutil.rmtree(os.path.join(h, t), ignore_errors=True)
+    return bad
+
+
+GENFROM = re.compile(r"^// This file was generated from (\S+)", re.M)
+GENIMPORT = re.compile(r'^\s*(?:(\w+)\s+)?"verifharness/([^"]+)"\s*$', re.M)
+
+
+def scan_gen(h, root):
+    """Where the generator put what: {IDL file name: package directory relative to the harness} from the header line of the
+    emitted files, {qualifier: package directory} from their package clauses and from the import lines the generator wrote
+    (the qualifiers other emitted code uses for a package).  A file with several modules gives several directories."""
+    src, quals = {}, {}
+    for path in sorted(glob.glob(os.path.join(h, root, "**", "*.go"), recursive=True)):
+        text = open(path, encoding="utf-8", errors="replace").read()
+        d = os.path.relpath(os.path.dirname(path), h)
+        m = GENFROM.search(text)
+        if m:
+            f = os.path.basename(m.group(1))
+            if d not in src.setdefault(f, []):
+                src[f].append(d)
+        pm = re.search(r"^package (\w+)", text, re.M)
+        if pm:
+            quals.setdefault(pm.group(1), d)
+        for im in GENIMPORT.finditer(text):
+            quals[im.group(1) or os.path.basename(im.group(2))] = im.group(2)
+    return src, quals
 
 
 # =============================================================================================== clause 3
@@ -685,13 +735,153 @@ def signature_program(ctx, maxparams, rot, name):
     return dict(skel[0]["skeleton"], funcs=funcs), r
 
 
-def write_program(d, pt):
+def include_programs(ctx, maxfiles, name):
+    """IdlIncludes.tla: TLC enumerates every include graph over up to maxfiles files (one state per graph: acyclic, the
+    order of the include lines is part of the state); every graph whose files are all reachable from the last one is
+    emitted with its program (IdlPrograms' format + `mods`).  Returns ([{"graph", "program"}], run)."""
+    r = tlc.run(ctx, SPEC, "IdlIncludes", cfg="Includes.cfg", workers=1, timeout=600, name=name, heap="1g",
+                extra_files={"Includes.cfg": tmpl("Includes.cfg.tmpl", FILES=maxfiles)})
+    tlc.require_clean(r, "IdlIncludes")
+    recs, seen = [], set()
+    for x in tlc_json_lines(r.out):
+        key = json.dumps([x["graph"]["inc"], x["graph"]["two"]]) if "graph" in x else None
+        if key and key not in seen:
+            seen.add(key)
+            recs.append(x)
+    # independent count: ordered subsets of the earlier files per file; rooted graphs among them
+    def ordsub(n):
+        out = [[]]
+        for size in range(1, n + 1):
+            out += [list(p) for p in itertools.permutations(range(1, n + 1), size)]
+        return out
+    def graphs(n):
+        gs = [[[]]]
+        for i in range(2, n + 1):
+            gs = [g + [s] for g in gs for s in ordsub(i - 1)]
+        return gs
+    def rooted(g):
+        seen2, todo = set(), [len(g)]
+        while todo:
+            i = todo.pop()
+            if i not in seen2:
+                seen2.add(i)
+                todo += g[i - 1]
+        return len(seen2) == len(g)
+    states = 2 * sum(len(graphs(n)) for n in range(1, maxfiles + 1))
+    want = sorted(json.dumps([g, two]) for n in range(2, maxfiles + 1) for g in graphs(n) if rooted(g) for two in (False, True))
+    if r.distinct != states or sorted(seen) != want:
+        raise Inconclusive("IdlIncludes emitted %d graphs in %d states, expected %d in %d" % (len(recs), r.distinct, len(want), states))
+    recs.sort(key=lambda x: (x["graph"]["files"], json.dumps(x["graph"]["inc"]), x["graph"]["two"]))
+    return recs, r
+
+
+def pick_include_programs(ctx, recs):
+    """thorough: every graph (up to three files: both ways of writing the root file; four files: as one module or as two in
+    turn, seeded); quick: every graph of three files (chain, fans and triangles in both orders of the include lines) + three
+    seeded graphs of four files (a diamond, one file with three include lines, one of the others), the root file written
+    as one module or as two in turn (seeded)"""
+    rng = random.Random(ctx.seed * 613 + 7)
+    graphs = sorted({json.dumps(x["graph"]["inc"]) for x in recs})
+    turn = {g: (i + ctx.seed) % 2 == 0 for i, g in enumerate(graphs)}
+    if not ctx.quick:
+        return [x for x in recs if x["graph"]["files"] <= 3 or x["graph"]["two"] == turn[json.dumps(x["graph"]["inc"])]]
+    recs = [x for x in recs if x["graph"]["two"] == turn[json.dumps(x["graph"]["inc"])]]
+    out = [x for x in recs if x["graph"]["files"] == 3]
+    four = [x for x in recs if x["graph"]["files"] == 4]
+    strata = [[x for x in four if x["graph"]["diamond"]],
+              [x for x in four if x["graph"]["maxinc"] == 3 and not x["graph"]["diamond"]],
+              [x for x in four if x["graph"]["maxinc"] < 3 and not x["graph"]["diamond"]]]
+    return out + [rng.choice(st) for st in strata if st]
+
+
+def tool_switches(exe):
+    """the boolean switches of the binary under test, read from its usage text: {name: default}"""
+    p = subprocess.run([exe], stdout=subprocess.PIPE, stderr=subprocess.STDOUT, timeout=20, env=env_go())
+    lines = p.stdout.decode("utf-8", "replace").splitlines()
+    out = {}
+    for i, l in enumerate(lines):
+        m = re.match(r"^  -(\S+)(?: (\S+))?(?:\t(.*))?$", l)
+        if not m or m.group(2):
+            continue
+        usage = m.group(3) if m.group(3) is not None else (lines[i + 1] if i + 1 < len(lines) else "")
+        out[m.group(1)] = "(default true)" in usage
+    return out
+
+
+def switch_family(ctx, exe):
+    """IdlSwitches.tla: every total assignment of the switches that change the emitted code (one state each).
+    Returns (defaults, [assignment], run, evidence)."""
+    r = tlc.run(ctx, SPEC, "IdlSwitches", cfg="Switches.cfg", workers=1, timeout=300, name="switches", heap="512m")
+    tlc.require_clean(r, "IdlSwitches")
+    recs = tlc_json_lines(r.out)
+    dflt = [x["default"] for x in recs if "default" in x]
+    combos, seen = [], set()
+    for x in recs:
+        if "sw" in x and json.dumps(x["sw"], sort_keys=True) not in seen:
+            seen.add(json.dumps(x["sw"], sort_keys=True))
+            combos.append(x["sw"])
+    if not dflt or len(combos) != 2 ** len(dflt[0]) or r.distinct != len(combos):
+        raise Inconclusive("IdlSwitches emitted %d assignments in %d states" % (len(combos), r.distinct))
+    tool = tool_switches(exe)
+    ev = {"switches": sorted(dflt[0]), "assignments": len(combos), "boolean_switches_of_the_tool": tool,
+          "tool_switches_not_in_the_family": sorted(set(tool) - set(dflt[0])),
+          "family_switches_the_tool_does_not_list": sorted(set(dflt[0]) - set(tool) - {"include"}),
+          "defaults_differ": sorted(k for k in dflt[0] if k in tool and tool[k] != dflt[0][k])}
+    return dflt[0], combos, r, ev
+
+
+def switch_flags(sw, default, incdir="<directory-of-the-included-files>"):
+    """command-line form of an assignment: the switches that differ from the tool's defaults (`include`: the search path)"""
+    return [("-include=%s" % incdir) if k == "include" else "-%s=%s" % (k, "true" if sw[k] else "false") for k in sorted(sw) if sw[k] != default[k]]
+
+
+def order_switches(combos, first, seed):
+    """all assignments, ordered so that a short prefix already holds every combination of values of any three switches
+    (greedy, seeded); `first` (the defaults, the framework Makefile's switches) lead"""
+    names = sorted(combos[0])
+    trip = lambda c: {(a, c[a], b, c[b], d, c[d]) for a, b, d in itertools.combinations(names, 3)}
+    rng = random.Random(seed * 977 + 3)
+    pool = [c for c in combos if c not in first]
+    rng.shuffle(pool)
+    out, covered = list(first), set()
+    for c in out:
+        covered |= trip(c)
+    while pool:
+        best = max(pool, key=lambda c: len(trip(c) - covered))
+        pool.remove(best)
+        out.append(best)
+        covered |= trip(best)
+    return out
+
+
+def switch_coverage(used):
+    names = sorted(used[0])
+    res = {}
+    for t in (2, 3):
+        have = {tuple((a, c[a]) for a in sub) for c in used for sub in itertools.combinations(names, t)}
+        total = len(list(itertools.combinations(names, t))) * 2 ** t
+        res["%d_way_value_combinations_covered" % t] = "%d of %d" % (len(have), total)
+    res["distinct_assignments"] = len({json.dumps(c, sort_keys=True) for c in used})
+    return res
+
+
+INCDIRS = ["%s", "%s/", "nowhere%d;%s", "%s/;nowhere%d", "nowhere%d:%s"]
+
+
+def write_program(d, pt, searchpath=False):
+    """the files of a program in directory d; searchpath: only the root file, the files it includes (directly or not) in
+    d/lib<k>.  Returns (path of each file, value for -include)."""
     os.makedirs(d, exist_ok=True)
-    for mod in ("A", "B"):
-        with open(os.path.join(d, pt.fname[mod]), "w", newline="") as f:
-            f.write(pt.module_text(mod))
+    lib = os.path.join(d, "lib%d" % pt.k) if searchpath else d
+    os.makedirs(lib, exist_ok=True)
+    paths = {}
+    for mod in pt.files:
+        paths[mod] = os.path.join(d if mod == pt.fileof[pt.root] else lib, pt.fname[mod])
+        with open(paths[mod], "w", newline="") as f:
+            f.write(pt.file_text(mod))
     with open(os.path.join(d, "P%dx.tars" % pt.k), "w") as f:
         f.write(pt.extras_text())
+    return paths, lib
 
 
 KNOWN_CODEC = None
@@ -901,9 +1091,10 @@ def generated_interfaces(pkgdir):
     return out
 
 
-def servant_source(mod, ifaces):
+def servant_source(mod, ifaces, paths):
     """Go text of the recording servants of one module (package zzs<mod>, outside the generated package): one type per
-    generated servant interface, its methods copied from that interface, every method handing what it receives to rec.Handler."""
+    generated servant interface, its methods copied from that interface, every method handing what it receives to rec.Handler.
+    paths: {qualifier: package directory relative to the harness} (scan_gen)."""
     body, used = [], {"context": False}
     for (name, withctx), meths in sorted(ifaces.items()):
         tn = "Impl%s_%s" % ("Ctx" if withctx else "Plain", name)
@@ -938,7 +1129,10 @@ def servant_source(mod, ifaces):
     if "context.Context" in text:
         head.append('\t"context"')
     head.append('\t"verifharness/cmd/ifdrive/rec"')
-    head += ['\t%s "verifharness/gen/%s"' % (q, q) for q in pkgs]
+    for q in pkgs:
+        if q not in paths:
+            raise Inconclusive("generated servant interface of %s refers to package %s, which no emitted file declares or imports" % (mod, q))
+        head.append('\t%s "verifharness/%s"' % (q, paths[q]))
     head += [")", ""]
     return "\n".join(head) + text
 
@@ -965,16 +1159,31 @@ def fn_line(idl_text, fname):
 class Batch:
     """One batch of programs through generator, compiler, driver and oracles."""
 
-    def __init__(self, ctx, exe, bi, progs, flags, seed):
-        self.ctx, self.exe, self.bi, self.flags, self.seed = ctx, exe, bi, flags, seed
+    def __init__(self, ctx, exe, bi, progs, switches, swdefault, seed):
+        """switches[i]: the assignment of the tool's switches (IdlSwitches.tla) program i is generated under"""
+        self.ctx, self.exe, self.bi, self.swdefault, self.seed = ctx, exe, bi, swdefault, seed
         b = self.b = copy.copy(ctx)
         b.work = ctx.sub("batch%d" % bi)
         os.makedirs(os.path.join(b.work, "bin"), exist_ok=True)
         shutil.copy(exe, os.path.join(b.work, "bin", "tars2go"))
         self.h = gobuild.stage_harness(b)
         self.progs = {bi * 1000 + i: idlgen.assign_uids(p) for i, p in enumerate(progs)}
-        self.ev = {"programs": len(progs), "flags": flags, "elements_removed_as_failing": 0, "programs_dropped": 0}
+        self.sw = {bi * 1000 + i: dict(switches[i]) for i in range(len(progs))}
+        self.sw_run = [dict(x) for x in switches]
+        self.ev = {"programs": len(progs), "programs_with_include_graph": sum(1 for p in progs if p.get("mods")),
+                   "switch_assignments": len({json.dumps(x, sort_keys=True) for x in switches}),
+                   "elements_removed_as_failing": 0, "programs_dropped": 0, "programs_reset_to_default_switches": 0}
         self.nscratch = 0
+        self.moddir, self.quals = {}, {}
+
+    def flags(self, k):
+        return switch_flags(self.sw[k], self.swdefault)
+
+    def incdir(self, k, lib):
+        """value of -include for program k: the directory, with or without a trailing slash, before or after one that does
+        not exist, separated the ways the tool documents"""
+        rel = os.path.relpath(lib, self.h)
+        return INCDIRS[(k + self.seed) % len(INCDIRS)].replace("%s", rel).replace("%d", str(k))
 
     def text(self, k, prog=None):
         return idlgen.ProgramText(prog if prog is not None else self.progs[k], k, self.seed)
@@ -984,24 +1193,89 @@ class Batch:
         return "%s/%s_%d" % (name, name, self.nscratch)
 
     def generate_alone(self, items, sub):
-        """items: [(label, k, prog)]: each program through the binary on its own.  Returns {label: (rc, out, secs, timed_out, outdir)}"""
+        """items: [(label, k, prog[, switches])]: each program through the binary on its own (root file + extras file), under
+        its own switches unless others are given.  Returns {label: (rc, out, secs, timed_out, outdir)}"""
         h = self.h
         jobs = []
-        for label, k, prog in items:
+        for it in items:
+            label, k, prog = it[:3]
             d = os.path.join(h, self.scratch(sub + "-idl"))
             pt = self.text(k, prog)
-            write_program(d, pt)
+            sw = it[3] if len(it) > 3 else self.sw[k]
+            paths, lib = write_program(d, pt, sw["include"])
             od = self.scratch(sub)
-            jobs.append((label, k, pt, d, od))
+            jobs.append((label, k, pt, d, od, switch_flags(sw, self.swdefault, self.incdir(k, lib)), paths))
 
         def one(j):
-            label, k, pt, d, od = j
-            rc, out, secs, to = run_tool(self.exe, ["-outdir=" + od + "/", "-module=verifharness"] + self.flags +
-                                         [os.path.relpath(os.path.join(d, pt.fname["B"]), h), os.path.relpath(os.path.join(d, "P%dx.tars" % k), h)], h, 10)
+            label, k, pt, d, od, flags, paths = j
+            rc, out, secs, to = run_tool(self.exe, ["-outdir=" + od + "/", "-module=verifharness"] + flags +
+                                         [os.path.relpath(paths[pt.fileof[pt.root]], h), os.path.relpath(os.path.join(d, "P%dx.tars" % k), h)], h, 10)
             return label, (rc, out, secs, to, od)
 
         with ThreadPoolExecutor(max_workers=8) as ex:
             return dict(ex.map(one, jobs))
+
+    def compile_fails(self, r, strict):
+        """r: results of generate_alone into isolate/.  {label: class} of those whose output does not compile (not strict: or
+        that the tool rejected)."""
+        out = {}
+        for lab, x in r.items():
+            if x[0] != 0 or x[3]:
+                if strict:
+                    raise Inconclusive("an element of an accepted program is rejected on its own: %s" % x[1][-300:])
+                out[lab] = "hang" if x[3] else "rejected:" + diag_class(x[1])
+        bad2 = go_build_all(self.h, "isolate")
+        for lab, x in r.items():
+            for pkg, e in bad2.items():
+                if pkg.startswith(x[4] + os.sep):
+                    out.setdefault(lab, go_error_class(e))
+        return out
+
+    def switch_dependent(self, kind, failing, fails, detail_of):
+        """failing: {k: class} under the programs' own switches.  A program that passes under the tool's default switches
+        fails because of its switches: for one such program per class each switch is flipped on its own; the switches whose
+        flip makes the failure disappear name the combination (value shown where it is not the default).  Every program of
+        the class whose switches agree with that combination is filed under it and continues under the default switches.
+        Returns the programs dealt with."""
+        cand = {k: c for k, c in failing.items() if self.flags(k)}
+        if not cand:
+            return set()
+        res = self.generate_alone([(k, k, None, self.swdefault) for k in sorted(cand)], "isolate")
+        still = fails(res)
+        shutil.rmtree(os.path.join(self.h, "isolate"), ignore_errors=True)
+        dep = {k: c for k, c in cand.items() if k not in still}
+        done = set()
+        for cls in sorted(set(dep.values())):
+            group = sorted((k for k, c in dep.items() if c == cls), key=lambda k: (len(self.text(k).module_text(self.text(k).root)), k))
+            for _ in range(4):
+                group = [k for k in group if k not in done]
+                if not group:
+                    break
+                k = group[0]
+                flips = {}
+                for name in sorted(self.sw[k]):
+                    v = dict(self.sw[k])
+                    v[name] = not v[name]
+                    flips[name] = v
+                res = self.generate_alone([((k, name), k, None, v) for name, v in sorted(flips.items())], "isolate")
+                bad = fails(res)
+                shutil.rmtree(os.path.join(self.h, "isolate"), ignore_errors=True)
+                needed = {name: self.sw[k][name] for name in flips if (k, name) not in bad}
+                shown = switch_flags({n: needed.get(n, self.swdefault[n]) for n in self.swdefault}, self.swdefault)
+                combo = ",".join(shown) if shown else "unminimised:" + ",".join(self.flags(k))
+                members = [q for q in group if all(self.sw[q][n] == v for n, v in needed.items())] if needed else [k]
+                pt = self.text(k)
+                self.ctx.violate("C16:%s:%s:switches:%s" % (kind, cls.split(":", 1)[1] if cls.startswith("rejected:") else cls, combo),
+                                 "%s (under the switches %s; with the default switches the same program passes; flipping any one of {%s} "
+                                 "makes the failure disappear; %d program(s) of the batch fail this way)"
+                                 % (detail_of(k), " ".join(self.flags(k)), ", ".join("-%s=%s" % (n, str(v).lower()) for n, v in sorted(needed.items())), len(members)),
+                                 {"flags": self.flags(k), "needed": needed, "files": {pt.fname[m]: pt.file_text(m) for m in pt.files},
+                                  "other_programs_switches": [self.flags(q) for q in members if q != k][:8]})
+                for q in members:
+                    done.add(q)
+                    self.sw[q] = dict(self.swdefault)
+                    self.ev["programs_reset_to_default_switches"] += 1
+        return done
 
     def isolate(self, failing, fails):
         """failing: {k: failure class}.  Every removable element of each failing program is tried on its own (one generator
@@ -1029,7 +1303,8 @@ class Batch:
         of the program reduced to that element)], [] (no single element reproduces it) or None (the bare skeleton fails)."""
         prog = self.progs[k]
         pt = self.text(k)
-        pt.module_text("A"), pt.module_text("B")
+        for m in pt.mods:
+            pt.module_text(m)
         strip = lambda c: c.split(":", 1)[1] if c.startswith("rejected:") else c
         if culprits:
             todo = [(strip(c), pt.feature.get(u, "?"), idlgen.only(prog, u)) for u, c in culprits]
@@ -1040,7 +1315,7 @@ class Batch:
         for c, feat, small in todo:
             spt = self.text(k, small)
             self.ctx.violate("C16:%s:%s:%s" % (kind, c, feat), detail,
-                             dict(extra, minimal_files={spt.fname[m]: spt.module_text(m) for m in ("A", "B")}, flags=self.flags))
+                             dict(extra, minimal_files={spt.fname[m]: spt.file_text(m) for m in spt.files}, flags=self.flags(k)))
         if culprits:
             self.progs[k] = idlgen.without(prog, {u for u, _ in culprits})
             self.ev["elements_removed_as_failing"] += len(culprits)
@@ -1048,10 +1323,65 @@ class Batch:
             del self.progs[k]
             self.ev["programs_dropped"] += 1
 
+    def stage_gen(self, rnd):
+        """Every program of the batch through the binary under its own switches into gen/ (odd program numbers: the root file
+        only, the others come in through its include lines; even: every file named on the command line), the schema of
+        all of them from the independent extractor, where each module's package went (read from the emitted files' own
+        headers and import lines: -module-cycle / -module-upper move and rename packages), and codecdrive's registry."""
+        b, h = self.b, self.h
+        shutil.rmtree(os.path.join(h, "gen"), ignore_errors=True)
+        idl = os.path.join(h, "pidl%d" % rnd)
+        jobs, files = [], []
+        for k in sorted(self.progs):
+            pt = self.text(k)
+            paths, lib = write_program(idl, pt, self.sw[k]["include"])
+            flat, _ = write_program(idl + "flat", pt) if self.sw[k]["include"] else (paths, lib)      # (the extractor follows include lines itself)
+            mods = [pt.fileof[pt.root]] if (k % 2) else pt.files
+            files += [flat[m] for m in mods]
+            jobs.append((k, ["-outdir=gen/", "-module=verifharness"] + switch_flags(self.sw[k], self.swdefault, self.incdir(k, lib))
+                         + [os.path.relpath(paths[m], h) for m in mods] + [os.path.relpath(os.path.join(idl, "P%dx.tars" % k), h)]))
+        if not files:
+            return None
+        t0 = time.time()
+        with ThreadPoolExecutor(max_workers=6) as ex:
+            res = list(ex.map(lambda j: (j[0], run_tool(self.exe, j[1], h, 30)), jobs))
+        self.ev["batch_generate_s"] = round(time.time() - t0, 2)
+        slowest = max(r[2] for _, r in res)
+        if slowest > 10:
+            self.ctx.violate("C16:slow:batch", "tars2go needed %.1f s for one valid program of the batch" % slowest, {})
+        for k, (rc, out, secs, to) in res:
+            if rc != 0 or to:
+                raise Inconclusive("tars2go failed on program %d in the batch run after passing it alone:\n%s" % (k, out[-1500:]))
+        schema = idl2schema.load(files)
+        schema = {"structs": schema["structs"], "enums": schema["enums"], "interfaces": schema["interfaces"], "order": schema["order"]}
+        src, self.quals = scan_gen(h, "gen")
+        self.moddir = {}
+        for k in sorted(self.progs):
+            pt = self.text(k)
+            for m in pt.mods:
+                # (-module-upper upper-cases the first letter of the package name; several modules of one file: several packages)
+                for d in src.get(pt.fname[m], []):
+                    if os.path.basename(d) in (pt.modname[m], pt.modname[m][:1].upper() + pt.modname[m][1:]):
+                        self.moddir[pt.modname[m]] = d
+        lines = ["// generated by checks/c16.py", "package main", "", "import ("]
+        mods = sorted({q.split(".")[0] for q in schema["order"]})
+        for mod in mods:
+            if mod not in self.moddir:
+                raise Inconclusive("no emitted package found for module %s (header line `This file was generated from` missing?)" % mod)
+            lines.append('\t%s "verifharness/%s"' % (mod, self.moddir[mod]))
+        lines += [")", "", "func init() {"]
+        for q in schema["order"]:
+            mod, name = q.split(".")
+            lines.append('\treg("%s", func() tarsStruct { return new(%s.%s) })' % (q, mod, idl2schema.go_name(name)))
+        lines += ["}", ""]
+        open(os.path.join(h, "cmd", "codecdrive", "reg_gen.go"), "w").write("\n".join(lines))
+        return schema
+
     def run(self):
         ctx, b, h, ev = self.ctx, self.b, self.h, self.ev
         schema = None
-        for rnd in range(5):
+        ROUNDS = 8
+        for rnd in range(ROUNDS):
             # ---- the generator terminates with exit 0 on every program of the batch
             res = self.generate_alone([(k, k, None) for k in sorted(self.progs)], "alone")
             failing = {}
@@ -1063,7 +1393,12 @@ class Batch:
             if failing:
                 def fails(r):
                     return {lab: ("hang" if x[3] else "rejected:" + diag_class(x[1])) for lab, x in r.items() if x[3] or x[0] != 0}
-                culprits = self.isolate(failing, fails)
+                done = self.switch_dependent("valid-rejected", {k: c for k, c in failing.items() if c != "hang"}, fails,
+                                             lambda k: "tars2go rejects a valid program: %s" % (res[k][1].strip().splitlines() or [""])[-1][:200])
+                done |= self.switch_dependent("hang", {k: "valid-program" for k, c in failing.items() if c == "hang"}, fails,
+                                              lambda k: "tars2go does not terminate within 10 s on a valid program")
+                failing = {k: c for k, c in failing.items() if k not in done}
+                culprits = self.isolate(failing, fails) if failing else {}
                 for k, cls in sorted(failing.items()):
                     out = res[k][1]
                     if cls == "hang":
@@ -1073,24 +1408,10 @@ class Batch:
                                     "tars2go rejects a valid program: %s" % (out.strip().splitlines() or [""])[-1][:200], {"output": out[-500:]})
                 shutil.rmtree(os.path.join(h, "isolate"), ignore_errors=True)
                 continue
-            # ---- one generator run and one go build for the whole batch
-            shutil.rmtree(os.path.join(h, "gen"), ignore_errors=True)
-            idl = os.path.join(h, "pidl%d" % rnd)
-            files = []
-            for k in sorted(self.progs):
-                pt = self.text(k)
-                write_program(idl, pt)
-                files += [os.path.join(idl, pt.fname["B"])] if (k % 2) else [os.path.join(idl, pt.fname["A"]), os.path.join(idl, pt.fname["B"])]
-            if not files:
+            # ---- the whole batch into one tree and one go build
+            schema = self.stage_gen(rnd)
+            if schema is None:
                 break
-            t0 = time.time()
-            _, schema = codecgen.stage(b, idl_files=files, with_res=False, extra_tars2go=self.flags)
-            ev["batch_generate_s"] = round(time.time() - t0, 2)
-            if ev["batch_generate_s"] > 10:
-                ctx.violate("C16:slow:batch", "tars2go needed %.1f s for a batch of %d valid programs" % (ev["batch_generate_s"], len(self.progs)), {})
-            rc, so, se = gobuild.tars2go(b, [os.path.join(idl, "P%dx.tars" % k) for k in sorted(self.progs)], "gen", "verifharness", cwd=h, timeout=30, extra=self.flags)
-            if rc != 0:
-                raise Inconclusive("tars2go failed on the extras files after passing them one by one:\n%s" % (so + se)[-1500:])
             t0 = time.time()
             ok, badpk = go_build(h, "./gen/...")
             ev["go_build_s"] = round(time.time() - t0, 2)
@@ -1104,26 +1425,16 @@ class Batch:
                     raise Inconclusive("cannot attribute a compile error to a program: %s\n%s" % (pkg, err))
                 failing.setdefault(k, go_error_class(err))
                 errs[k] = errs.get(k, "") + err
-
-            def fails(r):
-                for lab, x in r.items():
-                    if x[0] != 0 or x[3]:
-                        raise Inconclusive("an element of an accepted program is rejected on its own: %s" % x[1][-300:])
-                ok2, bad2 = go_build(h, "./isolate/...")
-                out = {}
-                for lab, x in r.items():
-                    for pkg, e in bad2.items():
-                        if pkg.startswith(x[4] + os.sep):
-                            out.setdefault(lab, go_error_class(e))
-                return out
-
-            culprits = self.isolate(failing, fails)
+            done = self.switch_dependent("valid-does-not-compile", failing, lambda r: self.compile_fails(r, False),
+                                         lambda k: "the Go code tars2go emits for a valid program does not compile: %s" % errs[k].splitlines()[0][:240])
+            failing = {k: c for k, c in failing.items() if k not in done}
+            culprits = self.isolate(failing, lambda r: self.compile_fails(r, True)) if failing else {}
             for k, cls in sorted(failing.items()):
                 self.report("valid-does-not-compile", k, cls, culprits[k],
                             "the Go code tars2go emits for a valid program does not compile: %s" % errs[k].splitlines()[0][:240], {"go_errors": errs[k][:1500]})
             shutil.rmtree(os.path.join(h, "isolate"), ignore_errors=True)
         else:
-            raise Inconclusive("batch %d: still failing after removing the failing elements 5 times" % self.bi)
+            raise Inconclusive("batch %d: still failing after removing the failing elements %d times" % (self.bi, ROUNDS))
         for dname in ("alone", "alone-idl", "isolate-idl"):
             shutil.rmtree(os.path.join(h, dname), ignore_errors=True)
         ev["programs_judged"] = len(self.progs)
@@ -1132,6 +1443,7 @@ class Batch:
         ev.update({"struct_types": len(schema["order"]), "interfaces": len(schema["interfaces"]),
                    "functions_compiled": sum(len(v) for v in schema["interfaces"].values())})
 
+        ev["switch_effects"] = self.switch_effects()
         ev["enum_constants"] = self.enum_check()
 
         # ---- the generated codecs against the IDL's meaning
@@ -1216,7 +1528,7 @@ class Batch:
         ev["oracle_states"] += ev["calls"].get("oracle_states", 0)
         ev["oracle_transitions"] += ev["calls"].get("oracle_transitions", 0)
         return ev, {"ctx": b, "schema": schema, "shards": shards, "extra": extra, "enc_bad": enc_bad,
-                    "texts": [self.text(k).module_text("A") for k in sorted(self.progs)]}
+                    "texts": [self.text(k).module_text(self.text(k).mods[0]) for k in sorted(self.progs)]}
 
     def call_check(self, schema):
         """Call transparency of the generated proxies and dispatchers: every operation of every interface of the batch is
@@ -1236,7 +1548,9 @@ class Batch:
         reg = ["// generated by checks/c16.py", "package main", "", "import ("]
         body = []
         for mod, names in sorted(mods.items()):
-            gi = generated_interfaces(os.path.join(h, "gen", mod))
+            if mod not in self.moddir:
+                raise Inconclusive("no emitted package found for module %s" % mod)
+            gi = generated_interfaces(os.path.join(h, self.moddir[mod]))
             want = {}
             for name in names:
                 gn = idl2schema.go_name(name)
@@ -1248,8 +1562,8 @@ class Batch:
                             % (json.dumps("%s.%s" % (mod, name)), mod, gn, mod, gn, mod, gn))
             d = os.path.join(h, "zzservants", mod)
             os.makedirs(d, exist_ok=True)
-            open(os.path.join(d, "servants.go"), "w").write(servant_source(mod, want))
-            reg += ['\t%s "verifharness/gen/%s"' % (mod, mod), '\ts_%s "verifharness/zzservants/%s"' % (mod, mod)]
+            open(os.path.join(d, "servants.go"), "w").write(servant_source(mod, want, dict(self.quals, **{mod: self.moddir[mod]})))
+            reg += ['\t%s "verifharness/%s"' % (mod, self.moddir[mod]), '\ts_%s "verifharness/zzservants/%s"' % (mod, mod)]
         reg += [")", "", "func init() {"] + body + ["}", ""]
         open(os.path.join(h, "cmd", "ifdrive", "reg_gen.go"), "w").write("\n".join(reg))
         t0 = time.time()
@@ -1298,7 +1612,7 @@ class Batch:
             else:
                 detail = "err=%r servant entered %s times, return value produced %s, handed back %s" % (r["err"][:120], r["implcalls"], r["retprod"][:60], r["retback"][:60])
             ctx.violate(sig, "%s call of `%s` through the generated proxy and dispatcher: %s" % (r["mode"], line or r["fn"], detail),
-                        {"record": r, "oracle": info, "idl": self.idl_of(r["iface"]), "flags": self.flags})
+                        {"record": r, "oracle": info, "idl": self.idl_of(r["iface"]), "flags": self.flags_of_module(r["iface"].split(".")[0])})
         # the spelling of a direction in Go is not part of the statement: counted, not judged
         spell = {"in_param_generated_as_pointer": 0, "out_param_generated_as_value": 0}
         for r in recs:
@@ -1390,8 +1704,8 @@ class Batch:
         for k in sorted(self.progs):
             pt = self.text(k)
             consts = {}
-            for mod in ("A", "B"):
-                for path in glob.glob(os.path.join(self.h, "gen", pt.modname[mod], "*.go")):
+            for mod in pt.mods:
+                for path in glob.glob(os.path.join(self.h, self.moddir.get(pt.modname[mod], "gen/-"), "*.go")):
                     for m in re.finditer(r"^\s*(\w+)\s+\w+\s*=\s*(-?\d+)\s*$", open(path).read(), re.M):
                         consts[(mod, m.group(1))] = int(m.group(2))
             for i, e in enumerate(self.progs[k]["enums"]):
@@ -1425,18 +1739,48 @@ class Batch:
             raise Inconclusive("enum oracle self-test failed")
         return {"enums": len(recs), "rejected": len(bad), "selftest_falsified_constant_rejected": True}
 
+    def switch_effects(self):
+        """Vacuity guard for the switch family: per switch, whether the emitted code of the root module of each program shows the
+        effect the tool documents for the value the program was generated under (agree) or not (disagree)."""
+        seen = {}
+        for k in sorted(self.progs):
+            pt = self.text(k)
+            d = self.moddir.get(pt.modname[pt.root])
+            if not d:
+                continue
+            texts = {os.path.basename(p): open(p, encoding="utf-8", errors="replace").read() for p in glob.glob(os.path.join(self.h, d, "*.go"))}
+            itf = "\n".join(t for n, t in texts.items() if n.endswith(".tars.go"))
+            st = "\n".join(t for n, t in texts.items() if not n.endswith(".tars.go"))
+            if not itf or "tars:\"" not in st:
+                continue
+            marks = {"add-servant": "AddServantWithContext(" in itf, "without-trace": "tarstrace" not in itf,
+                     "dispatch-reporter": "GetDispatchReporter" in itf, "json-omitempty": ",omitempty" in st,
+                     "module-cycle": d.count(os.sep) >= 2, "E": re.search(r'^"fmt"$', st, re.M) is not None,
+                     "module-upper": None if pt.modname[pt.root][:1].isupper() else os.path.basename(d)[:1].isupper()}
+            for name, m in marks.items():
+                if m is not None and name in self.sw[k]:
+                    e = seen.setdefault(name, {"agree": 0, "disagree": 0})
+                    e["agree" if m == self.sw[k][name] else "disagree"] += 1
+        return seen
+
+    def flags_of_module(self, mod):
+        for k in self.progs:
+            if mod in self.text(k).modname.values():
+                return self.flags(k)
+        return []
+
     def idl_of(self, q):
         mod = q.split(".")[0]
         for k in self.progs:
             pt = self.text(k)
-            for m in ("A", "B"):
+            for m in pt.mods:
                 if pt.modname[m] == mod:
                     return pt.module_text(m)
         return ""
 
 
-def batch(ctx, exe, bi, progs, flags, seed):
-    return Batch(ctx, exe, bi, progs, flags, seed).run()
+def batch(ctx, exe, bi, progs, switches, swdefault, seed):
+    return Batch(ctx, exe, bi, progs, switches, swdefault, seed).run()
 
 
 def has_nan(v):
@@ -1527,6 +1871,9 @@ def run(ctx):
     ctx.assumptions = [
         "IdlGrammar.tla defines the language at token level; constructs it leaves out (trailing comma / empty enum, unnamed parameters, include after a module, ...) are 'not in the language': accepted leniently by the tool = observation",
         "IdlPrograms.tla defines the valid program family; lexemes come from lib/idlgen.py pools that avoid Go keywords, predeclared names, generated method names and the generator's locals",
+        "IdlIncludes.tla: a file refers only to types of files it includes directly (what is visible through an include of an include is left open by the statement); "
+        "IdlSwitches.tla: the statement holds under every assignment of the tool's switches that change the emitted code; a failure that disappears under the default "
+        "switches is named by the switches whose single flip removes it",
         "schemas of generated structs come from lib/idl2schema.py (independent of tars2go); the codec oracles are those of C03/C04/C06",
         "operational reading of 'terminates with a diagnostic': within 5 s (10 s for valid programs), and exit 0 only with output that compiles",
         "call transparency of generated proxies/dispatchers is judged on an in-process loop (proxy -> model.Servant stub -> generated Dispatch, TARS version); the transport, filters, TUP/JSON requests are C01's / C10's; "
@@ -1552,13 +1899,32 @@ def run(ctx):
     nb = ctx.pick(2, 6)
     sigmax = ctx.pick(4, 5)
     fsig = [pool.submit(signature_program, ctx, sigmax, ctx.seed * 7 + bi * 11, "signatures%d" % bi) for bi in range(nb)]
+    finc = pool.submit(include_programs, ctx, 4, "includes")
+    fsw = pool.submit(switch_family, ctx, exe)
     progs, sim_states = sample_programs(ctx, nprog, ctx.seed, ctx.pick(2, 3))
     sigs = [f.result() for f in fsig]
-    flagsets = [[], makefile_flags()[:2] + ["-json-omitempty"]]     # the default flags / the flags the framework's own Makefile uses
+    inc_all, rinc = finc.result()
+    incs = pick_include_programs(ctx, inc_all)
+    swdefault, combos, rsw, sw_ev = fsw.result()
+    # the switches of the framework's own Makefile (+ json-omitempty) and the defaults lead the order of assignments
+    mk = dict(swdefault)
+    for fl in makefile_flags():
+        m = re.match(r"^-+([\w-]+)=(true|false)$", fl)
+        if m and m.group(1) in mk:
+            mk[m.group(1)] = m.group(2) == "true"
+    mk["json-omitempty"] = True
+    sworder = order_switches(combos, [dict(swdefault), mk], ctx.seed)
     per = (nprog + nb - 1) // nb
     bpool = ThreadPoolExecutor(max_workers=2)        # at most two batches (builds, drivers, oracle JVMs) at a time
-    # every batch: its share of the sampled programs + the program of all operation signatures (own type rotation)
-    fb = [bpool.submit(batch, ctx, exe, bi + 1, progs[bi * per:(bi + 1) * per] + [sigs[bi][0]], flagsets[bi % 2], ctx.seed) for bi in range(nb)]
+    # every batch: its share of the sampled programs + the program of all operation signatures (own type rotation) + its share
+    # of the include-graph programs; every program of the run under its own assignment of the tool's switches
+    fb, used, g = [], [], 0
+    for bi in range(nb):
+        mine = progs[bi * per:(bi + 1) * per] + [sigs[bi][0]] + [x["program"] for x in incs[bi::nb]]
+        sws = [sworder[(g + i) % len(sworder)] for i in range(len(mine))]
+        g += len(mine)
+        used += sws
+        fb.append(bpool.submit(batch, ctx, exe, bi + 1, mine, sws, swdefault, ctx.seed))
     f2 = pool.submit(clause2, ctx, exe)
     fraw1 = pool.submit(clause2_raw, ctx, exe, [], ["random-bytes", "token-soup"], ctx.pick(1000, 50000), "n")
 
@@ -1592,8 +1958,21 @@ def run(ctx):
     calls = sum(c["calls"] for c in cevs)
     if not cevs and not ctx.violations:
         raise Inconclusive("no generated proxy / dispatcher was driven")
-    sig_states = sum(r.distinct for _, r in sigs)
-    sig_trans = sum(r.generated for _, r in sigs)
+    sig_states = sum(r.distinct for _, r in sigs) + rinc.distinct + rsw.distinct
+    sig_trans = sum(r.generated for _, r in sigs) + rinc.generated + rsw.generated
+    inc_judged = sum(e.get("programs_with_include_graph", 0) for e in bevs)
+    effects = {}
+    for e in bevs:
+        for name, v in e.get("switch_effects", {}).items():
+            t = effects.setdefault(name, {"agree": 0, "disagree": 0})
+            t["agree"] += v["agree"]
+            t["disagree"] += v["disagree"]
+    dead = sorted(n for n in swdefault if n != "include" and effects.get(n, {}).get("agree", 0) == 0)
+    if dead and not ctx.violations:
+        raise Inconclusive("switches without any visible effect on the emitted code: %s (are they still passed to the tool?)" % dead)
+    multi = [x for x in incs if x["graph"]["maxinc"] >= 2]
+    if (not multi or not any(x["graph"]["diamond"] for x in incs)) and not ctx.violations:
+        raise Inconclusive("no include graph with several include lines / no diamond among the programs of this run")
     ctx.coverage = {
         "states": rmc.distinct + rmc2.distinct + sig_states + c2["gen_states"] + c2["oracle_states"] + craw["oracle_states"] + sum(e.get("oracle_states", 0) for e in bevs),
         "transitions": rmc.generated + rmc2.generated + sig_trans + sim_states + c2["gen_transitions"] + c2["oracle_transitions"] + sum(e.get("oracle_transitions", 0) for e in bevs),
@@ -1602,7 +1981,8 @@ def run(ctx):
         "evaluations": c2["runs"] + craw["raw_inputs"] + enc + dec + calls + c3["files_compared"],
         "distinct_nontrivial": c2["token_tests"] + judged,
         "rule": "clause 1: %d programs sampled by TLC's simulator from IdlPrograms (seed %d) + one program per batch with every operation signature "
-                "enumerated by TLC from IdlSignatures, %d batches; per generated struct type random values "
+                "enumerated by TLC from IdlSignatures + the programs of the include graphs enumerated by TLC from IdlIncludes, %d batches, every program "
+                "under its own assignment of the tool's switches (IdlSwitches); per generated struct type random values "
                 "-> real WriteTo/ReadFrom judged by Oracle_Schema, mutants (extra, absent, prefix, inflate, subst) judged by Oracle_Dec; per generated "
                 "operation calls through the generated proxy looped back into the generated dispatcher with a recording servant, judged by Oracle_Call; "
                 "clause 2: one run of the binary per (configuration, token) of the automaton (stack depth <= %d) + raw inputs; clause 3: file-by-file diff"
@@ -1616,6 +1996,18 @@ def run(ctx):
                           "position_classes_exercised": sorted(set(x for c in cevs for x in c["position_classes_exercised"])),
                           "direction_sequences_max": max([c["direction_sequences"] for c in cevs] or [0]),
                           "selftest": [c["selftest_falsified_calls"] for c in cevs][:1]},
+        "include_graph_family": {"max_files": 4, "states": rinc.distinct, "graphs_emitted": len(inc_all), "graphs_run": len(incs),
+                                 "run_by_files": {str(n): sum(1 for x in incs if x["graph"]["files"] == n) for n in (2, 3, 4)},
+                                 "run_with_several_include_lines": len(multi), "run_with_three_include_lines": sum(1 for x in incs if x["graph"]["maxinc"] >= 3),
+                                 "run_diamonds": sum(1 for x in incs if x["graph"]["diamond"]), "run_triangles": sum(1 for x in incs if x["graph"]["triangle"]),
+                                 "run_root_file_with_two_modules": sum(1 for x in incs if x["graph"]["two"]),
+                                 "programs_in_batches": inc_judged, "example_graph": incs[-1]["graph"],
+                                 "what": "IdlIncludes.tla: every acyclic include graph over <= 4 files (order of the include lines part of the graph), all files reachable "
+                                         "from the root; each file uses struct, enum (default by member name), container and array types of EVERY file it includes, "
+                                         "in members, parameters and return values"},
+        "switch_family": dict(sw_ev, **dict(switch_coverage(used), programs=len(used), documented_effect_seen_in_emitted_code=effects,
+                              what="IdlSwitches.tla: every assignment of the switches that change the emitted code; each program of a batch is generated "
+                                   "under its own assignment and goes through compiler, codec oracles and call-transparency oracle with it")),
         "clause1_batches": bevs, "clause1_programs_judged": judged, "clause1_known_codec_findings_seen": known,
         "clause2": {k: v for k, v in c2.items() if k != "sample"}, "clause2_raw": craw,
         "clause3": c3,
